@@ -20,6 +20,31 @@ pub struct Call {
     pub text_regs: Vec<usize>,
     /// the call was constructed to fail for a documented reason
     pub expect_err: bool,
+    /// build_array / build_object only: an item that is not JSONB at all (position, bytes). The functions assume valid
+    /// items, so nothing is required of what such a call appends -- only that earlier bytes and offsets survive.
+    pub bad_item: Option<(usize, Vec<u8>)>,
+}
+
+const BAD_ITEMS: &[&[u8]] = &[b"null", b"true", b"false", b"\x00\x00\x00\x00", b"\xa0\x00\x00\x01", b"\xc0\x00\x00\x00", b"\xe0\x00\x00\x00rest", b"", b"\x20", b"\x80\x00"];
+
+/// The operation actually executed: with the bad item spliced in as pseudo-register `nregs`.
+fn effective_op(call: &Call, nregs: usize) -> Op {
+    match (&call.op, &call.bad_item) {
+        (Op::BuildArray { items }, Some((pos, _))) => {
+            let mut it = items.clone();
+            it.insert((*pos).min(it.len()), nregs);
+            Op::BuildArray { items: it }
+        }
+        (Op::BuildObject { items }, Some((pos, _))) => {
+            let mut it = items.clone();
+            let at = (*pos).min(it.len());
+            // keep the keys strictly increasing: reuse the neighbour's key with a suffix
+            let key = if at == 0 { String::new() } else { format!("{}\u{1}", it[at - 1].0) };
+            it.insert(at, (key, nregs));
+            Op::BuildObject { items: it }
+        }
+        (op, _) => op.clone(),
+    }
 }
 
 #[derive(Clone, Debug)]
@@ -122,7 +147,12 @@ impl Scenario for Batch {
                 text_regs.clear();
             }
             let expect_err = documented_error(&op, &regs);
-            calls.push(Call { op, text_regs, expect_err });
+            let bad_item = if matches!(op, Op::BuildArray { .. } | Op::BuildObject { .. }) && r.chance(fail_pct, 200) {
+                Some((r.idx(4), r.pick(BAD_ITEMS).to_vec()))
+            } else {
+                None
+            };
+            calls.push(Call { op, text_regs, expect_err, bad_item });
         }
         Case { regs, styles, prefill, prefill_offsets, policy, calls }
     }
@@ -154,7 +184,12 @@ impl Scenario for Batch {
             if data.capacity() == data.len() {
                 stats.inc("probe/exact_fit_call");
             }
-            let args = if call.text_regs.is_empty() { bin.clone() } else { Batch::args_for(case, call) };
+            let mut args = if call.text_regs.is_empty() { bin.clone() } else { Batch::args_for(case, call) };
+            let op_eff = effective_op(call, case.regs.len());
+            if let Some((_, bytes)) = &call.bad_item {
+                args.push(bytes.clone());
+                stats.inc("probe/invalid_item_injected");
+            }
             let before = data.clone();
             let before_off = offsets.clone();
             let is_text = !call.text_regs.is_empty();
@@ -173,11 +208,11 @@ impl Scenario for Batch {
                 }
             }
             // the call under test, on the shared buffer
-            let out = guard(|| ops::call(&call.op, &args, &case.regs, &mut data, &mut offsets));
+            let out = guard(|| ops::call(&op_eff, &args, &case.regs, &mut data, &mut offsets));
             // the same call on a fresh, empty buffer
             let mut fresh = Vec::new();
             let mut fresh_off = Vec::new();
-            let out2 = guard(|| ops::call(&call.op, &args, &case.regs, &mut fresh, &mut fresh_off));
+            let out2 = guard(|| ops::call(&op_eff, &args, &case.regs, &mut fresh, &mut fresh_off));
             let (out, out2) = match (out, out2) {
                 (Err(p), _) | (_, Err(p)) => {
                     digest.str(&p.loc);
@@ -209,6 +244,13 @@ impl Scenario for Batch {
                     &mut violations,
                 );
                 break;
+            }
+            if call.bad_item.is_some() {
+                // an invalid item: the functions assume valid JSONB items; only the frame condition above is required
+                if let LibOut::Wrote(Err(e)) = &out {
+                    stats.inc2("errors", &format!("{name}:{e}(invalid item)"));
+                }
+                continue;
             }
             if out != out2 {
                 push(
@@ -376,7 +418,8 @@ impl Scenario for Batch {
             "prefill_hex": mval::hex(&case.prefill),
             "prefill_offsets": case.prefill_offsets,
             "capacity_policy": case.policy,
-            "calls": case.calls.iter().map(|c| json!({"call": c.op.to_json(), "text_regs": c.text_regs, "built_to_fail": c.expect_err})).collect::<Vec<_>>(),
+            "calls": case.calls.iter().map(|c| json!({"call": c.op.to_json(), "text_regs": c.text_regs, "built_to_fail": c.expect_err,
+                "bad_item": c.bad_item.as_ref().map(|(p, b)| json!({"pos": p, "hex": mval::hex(b)}))})).collect::<Vec<_>>(),
         })
     }
 
@@ -394,6 +437,10 @@ impl Scenario for Batch {
                 op: Op::from_json(&c["call"])?,
                 text_regs: c["text_regs"].as_array().map(|a| a.iter().filter_map(|x| x.as_u64().map(|v| v as usize)).collect()).unwrap_or_default(),
                 expect_err: c["built_to_fail"].as_bool().unwrap_or(false),
+                bad_item: match c.get("bad_item") {
+                    Some(b) if b.is_object() => Some((b["pos"].as_u64().unwrap_or(0) as usize, mval::unhex(b["hex"].as_str().unwrap_or(""))?)),
+                    _ => None,
+                },
             });
         }
         Ok(Case {
@@ -435,7 +482,7 @@ impl Scenario for Batch {
         m.insert("errors_returned".into(), stats.group("errors"));
         m.insert(
             "fault_kinds".into(),
-            json!({"documented_error_injected": stats.get("probe/documented_error_injected"), "forced_reallocation_exact_fit": stats.get("probe/exact_fit_call"),
+            json!({"documented_error_injected": stats.get("probe/documented_error_injected"), "invalid_item_injected (build_array/build_object, frame condition only)": stats.get("probe/invalid_item_injected"), "forced_reallocation_exact_fit": stats.get("probe/exact_fit_call"),
                    "prefilled_buffer": stats.get("probe/prefilled_batch")}),
         );
         m.insert(
@@ -453,6 +500,7 @@ impl Scenario for Batch {
             "probe/prefilled_batch",
             "probe/offsets_reported",
             "probe/offsets_reported_nonempty_prior",
+            "probe/invalid_item_injected",
         ]
     }
 }
